@@ -28,6 +28,15 @@ CHECKS = {
  'C07': ('input-sweep', 'bounded-exhaustive enumeration of accepted packets x (target, source, mode) menus, renamer output compared with an abstract rename on the decoded message',
          'Every packet of the bounded universe is renamed with every pair of a source/target menu (matches at each label depth, near-misses, case variants, growth past 255) in both modes through both entry points; output must decode to the abstractly renamed message or fail exactly when a name overflows.',
          'OPT position inside the additional section after renaming is not constrained; reference decoder trusted', '§5 C07'),
+ 'C08': ('bfs', 'explicit-state breadth-first search over API operation sequences on the real object (full-field state hashing), view oracle = reference decode of the object\'s own bytes and a fresh parse, on every reached state',
+         'All operation sequences up to the completed depth (reported) over an alphabet covering every public mutation with succeeding and failing arguments are executed on the real ParsedPacket from many initial packets; in every reached state each view field is compared with the reference view of the bytes and with a fresh parse, and cursor continuity is checked after every in-cursor mutation.',
+         'alphabet, initial states and depth are listed in the evidence; protocol-inconsistent histories are excluded (see assumptions)', '§4.2, §5 C08'),
+ 'C09': ('bfs', 'explicit-state breadth-first search over API operation sequences; effect oracle = abstract operation applied to the decoded message before the call must equal the decoded message after it',
+         'Same state graph as C08; every transition is compared with a ten-line abstract operation on the decoded message, so any collateral change to another record, count, header field or the EDNS data is seen.',
+         'abstract operations trusted', '§4.2, §5 C09'),
+ 'C10': ('bfs', 'explicit-state breadth-first search with failing arguments in the alphabet (fault enumeration over argument classes): expected-error transitions must fail, leave the decoded message unchanged and the view consistent; size limit checked from packets below, at and above 8192 bytes',
+         'Same state graph as C08 including initial packets larger than the limit and 64 KiB-adjacent ones; every operation the abstract semantics says must fail is required to fail atomically.',
+         'which error kind is returned is not compared', '§4.2, §5 C10'),
 }
 
 def entry(pid):
